@@ -359,7 +359,7 @@ func (e *pfEnv) eval(x ast.Expr) pform {
 		}
 	case *ast.CallExpr:
 		if tv, ok := e.info.Types[x.Fun]; ok && tv.IsType() && len(x.Args) == 1 {
-			return e.eval(x.Args[0]) // integer conversion, taken as exact
+			return e.convert(e.eval(x.Args[0]), tv.Type)
 		}
 		if fn := CalleeOf(e.info, x); fn != nil {
 			if fd := e.funcs[fn]; fd != nil {
@@ -410,6 +410,87 @@ func (e *pfEnv) eval(x ast.Expr) pform {
 		return e.binop(x.Op, e.eval(x.X), e.eval(x.Y))
 	}
 	return pform{}
+}
+
+// convert models an integer conversion. A form with a single page symbol whose range over the symbol's interval does
+// not fit the target type wraps: when the whole range lies one modulus above (below) the type's range the modulus is
+// subtracted (added); when it straddles the boundary the symbol's interval is split there. Forms with several
+// symbols are taken as exact (the rules that use them state the operand range under which that holds).
+func (e *pfEnv) convert(f pform, t types.Type) pform {
+	if !f.OK || f.IsBool || f.Mod != 0 {
+		return f
+	}
+	b, ok := t.Underlying().(*types.Basic)
+	if !ok || b.Info()&types.IsInteger == 0 {
+		return f
+	}
+	w, signed := typeWidth(t)
+	if w >= 64 {
+		return f
+	}
+	nsym := 0
+	var sym string
+	for s, cf := range f.Page {
+		if cf != 0 {
+			nsym++
+			sym = s
+		}
+	}
+	for _, cf := range f.Byte {
+		if cf != 0 {
+			return f
+		}
+	}
+	if nsym != 1 || (!f.PageSc && f.Lo != f.Hi) || (!f.PageSc && w < 13) {
+		return f
+	}
+	lo, hi, okR := e.rangeOf(f)
+	if !okR {
+		return f
+	}
+	mod := int64(1) << uint(w)
+	tlo, thi := int64(0), mod-1
+	if signed {
+		tlo, thi = -(mod >> 1), mod>>1-1
+	}
+	if lo >= tlo && hi <= thi {
+		return f
+	}
+	// whole range one or more moduli away: shift
+	shift := func(v int64) int64 { return floorDiv(v-tlo, mod) }
+	if shift(lo) == shift(hi) {
+		k := shift(lo)
+		g := f.clone()
+		if g.PageSc {
+			g.K -= k * mod
+		} else {
+			g.K -= k * (mod / 4096)
+		}
+		return g
+	}
+	// straddles a boundary: split the symbol's interval at the first point whose shift differs from that of the start
+	bnd := e.bounds[sym]
+	val := func(q int64) int64 {
+		v := f.Page[sym]*q + f.K
+		if !f.PageSc {
+			v = 4096*v + f.Lo
+		}
+		return v
+	}
+	first := shift(val(bnd[0]))
+	l, h := bnd[0], bnd[1]
+	if shift(val(h)) == first {
+		return f // not monotone in a way we can split: leave exact
+	}
+	for l+1 < h {
+		m := l + (h-l)/2
+		if shift(val(m)) == first {
+			l = m
+		} else {
+			h = m
+		}
+	}
+	panic(pfSplit{sym, h})
 }
 
 func (e *pfEnv) binop(op token.Token, l, r pform) pform {
